@@ -984,3 +984,11 @@ def _m75():
     from bfg9000.builtins import find as bfind
     _patch_source(bfind, 'write_depfile', 'out.write(i.string(roots), Syntax.dependency)',
                   'out.write(i.string(roots), Syntax.target)')
+
+
+@mutant('ninja_srcdir_after_flags')
+def _m76():
+    # srcdir is defined in the default section: after the flags that refer to it
+    from bfg9000.backends.ninja import writer as nw
+    _patch_source(nw, 'write', "buildfile.variable(buildfile.path_vars[path.Root.srcdir], env.srcdir,\n                       Section.path)",
+                  "buildfile.variable(buildfile.path_vars[path.Root.srcdir], env.srcdir)")
